@@ -15,7 +15,7 @@ import (
 func init() { register("C13", c13) }
 
 func c13(c *core.Check) {
-	c.Explain = "Thin: structural necessary conditions of a consistent table grid, decided on the SSA form and the syntax tree: (R1) a cell spans at least one column and a non-negative number of rows; (R2) the slot assignment of wrapTable gives each cell the first column not occupied by a row-spanning cell, advances the cursor by the cell's colspan, clamps rowspan to the rows left in the group (0 meaning all of them) and marks exactly the columns of the cell as occupied in the spanned rows — so two cells never receive the same slot; (R3) the side-mirrored assignments, the box-edge sums and the named arguments of the table layout code are consistent. Column width distribution, row heights, border-spacing arithmetic and the equalities between cell edges are numerical relations between runtime values and are not decided. Also decided: (R4) border-spacing is read only in the separated-borders model; (R5) the spacing term of a spanning cell counts the columns actually spanned; (R6) a row's bottom edge is computed from its final height."
+	c.Explain = "Thin: structural necessary conditions of a consistent table grid, decided on the SSA form and the syntax tree: (R1) a cell spans at least one column and a non-negative number of rows; (R2) the slot assignment of wrapTable gives each cell the first column not occupied by a row-spanning cell, advances the cursor by the cell's colspan, clamps rowspan to the rows left in the group (0 meaning all of them) and marks exactly the columns of the cell as occupied in the spanned rows — so two cells never receive the same slot; (R3) the side-mirrored assignments, the box-edge sums and the named arguments of the table layout code are consistent. Column width distribution, row heights, border-spacing arithmetic and the equalities between cell edges are numerical relations between runtime values and are not decided. Also decided: (R4) border-spacing is read only in the separated-borders model; (R5) the spacing term of a spanning cell counts the columns actually spanned; (R6) a row's bottom edge is computed from its final height. Also decided: (R9) the edge cells are padded down to is the row's own bottom; (R10) the fixed layout divides no possibly negative width among columns; (R11) the spacings counted in the table's width and those laid between the columns are counted the same way."
 	_ = c.Prog
 	r1 := c.Rule("R1", "NewTableCellBox reads colspan within [1, 1000] and rowspan within [0, 65534] (HTML)", 5)
 	spanBounds(c, r1)
